@@ -24,7 +24,7 @@ const verifTryteAlphabet = "9ABCDEFGHIJKLMNOPQRSTUVWXYZ"
 //verif:run thorough n=4..5
 func VerifC14B1t6Encode(n int) {
 	src := verifBytes("src", n)
-	dst := make(trinary.Trits, EncodedLen(n))
+	dst := verifDirtyTrits("tdst0", EncodedLen(n))
 	w := Encode(dst, src)
 	verifAssert("enc.len", w == 6*n)
 	for i := 0; i < n; i++ {
@@ -48,7 +48,7 @@ func VerifC14B1t6Encode(n int) {
 		verifAssert("trytes.char", ts[k] == verifTryteAlphabet[idx])
 	}
 	// round trips
-	back := make([]byte, n)
+	back := verifBytes("back0", n) // arbitrary previous content of the destination
 	k, err := Decode(back, dst)
 	verifAssert("rt.trits.ok", err == nil && k == n)
 	for i := 0; i < n; i++ {
@@ -75,7 +75,7 @@ func VerifC14B1t6Decode(g, r int) {
 		src[i] = int8(raw[i])
 		verifAssume(verifIsTrit(src[i]))
 	}
-	dst := make([]byte, g)
+	dst := make([]byte, g) // (a destination with previous content: VerifC14B1t6DecodeDirty)
 	k, err := Decode(dst, src)
 
 	firstBad := -1
@@ -94,7 +94,7 @@ func VerifC14B1t6Decode(g, r int) {
 		verifAssert("dec.len.count", k == g)
 	default:
 		verifAssert("dec.ok", err == nil && k == g)
-		re := make(trinary.Trits, n)
+		re := verifDirtyTrits("re0", n)
 		Encode(re, dst)
 		for i := 0; i < n; i++ {
 			verifAssert("dec.reencode", re[i] == src[i])
@@ -152,4 +152,62 @@ func VerifC14B1t6DecodeTrytes(g, r int) {
 			verifAssert("dect.reencode", re == s)
 		}
 	}
+}
+
+// verifDirtyTrits: a destination buffer with arbitrary previous content (results must not depend on it)
+func verifDirtyTrits(name string, n int) trinary.Trits {
+	b := verifBytes(name, n)
+	t := make(trinary.Trits, n)
+	for i := range t {
+		t[i] = int8(b[i])
+	}
+	return t
+}
+
+// VerifC14B1t6DecodeDirty: the decoded bytes do not depend on what the destination held before, and bytes
+// behind the decoded ones are left alone.
+//
+//verif:run quick g=1..2
+//verif:run thorough g=3..4
+func VerifC14B1t6DecodeDirty(g int) {
+	n := 6 * g
+	raw := verifBytes("trits", n)
+	src := make(trinary.Trits, n)
+	for i := range src {
+		src[i] = int8(raw[i])
+		verifAssume(verifIsTrit(src[i]))
+	}
+	for i := 0; i < g; i++ {
+		v := verifGroupValue(src[6*i : 6*i+6])
+		verifAssume(v >= -128 && v <= 127)
+	}
+	prev := verifBytes("dst0", g+1)
+	dst := append([]byte{}, prev...)
+	k, err := Decode(dst, src)
+	verifAssert("dirty.ok", err == nil && k == g)
+	for i := 0; i < g; i++ {
+		verifAssert("dirty.value", int(int8(dst[i])) == verifGroupValue(src[6*i:6*i+6]))
+	}
+	verifAssert("dirty.tail.untouched", dst[g] == prev[g])
+	tr := make([]byte, 2*g)
+	for i := 0; i < g; i++ {
+		t1 := int(src[6*i]) + 3*int(src[6*i+1]) + 9*int(src[6*i+2])
+		t2 := int(src[6*i+3]) + 3*int(src[6*i+4]) + 9*int(src[6*i+5])
+		tr[2*i], tr[2*i+1] = verifTryteChar(t1), verifTryteChar(t2)
+	}
+	bs, err2 := DecodeTrytes(string(tr))
+	verifAssert("dirty.trytes.ok", err2 == nil && len(bs) == g)
+	for i := 0; i < g && i < len(bs); i++ {
+		verifAssert("dirty.trytes.same", bs[i] == dst[i])
+	}
+}
+
+func verifTryteChar(v int) byte {
+	if v == 0 {
+		return '9'
+	}
+	if v < 0 {
+		v += 27
+	}
+	return byte('A' + v - 1)
 }
